@@ -101,7 +101,7 @@ package csv
 //@   tags C05,C15,C09,C14
 //@   requires ct != nil && tbl(ct.Table) && tab(ct).nColumns <= 1099511627774
 //@   requires [writer-ok] !Wfailed
-//@   assigns heap[tabular.propertyImpl.properties], new(tabular.valueProperty), tab(ct).ErrorContainer.errors_, elemscap(tab(ct).ErrorContainer.errors_), ghost cbErrN, ghost cbErrLog, ghost stage, ghost fires, ghost stageR, ghost firesR, ghost stageT, ghost stageC, ghost Wn, ghost Wchunk, ghost Wfailed, ghost csvRecN, ghost csvRecStart, ghost csvRecCells
+//@   assigns heap[tabular.propertyImpl.properties], new(tabular.valueProperty), tab(ct).ErrorContainer.errors_, elemscap(tab(ct).ErrorContainer.errors_), ghost cbErrN, ghost cbErrLog, ghost cbCallN, ghost cbCallSelf, ghost cbCallOwner, ghost stage, ghost fires, ghost stageR, ghost firesR, ghost stageT, ghost stageC, ghost Wn, ghost Wchunk, ghost Wfailed, ghost csvRecN, ghost csvRecStart, ghost csvRecCells
 //@   ensures [table-still-wellformed] tbl(ct.Table) @C09,C14
 //@   ensures [no-columns-refused] tab(ct).nColumns < 1 ==> result != nil && Wn == old(Wn) @C05
 //@   ensures [failing-writer-surfaces] Wfailed ==> result != nil @C15
@@ -134,7 +134,7 @@ package csv
 //@ func (*CSVTable).Render
 //@   tags C09,C10
 //@   requires ct != nil && tbl(ct.Table) && tab(ct).nColumns <= 1099511627774
-//@   assigns heap[tabular.propertyImpl.properties], new(tabular.valueProperty), tab(ct).ErrorContainer.errors_, elemscap(tab(ct).ErrorContainer.errors_), ghost cbErrN, ghost cbErrLog, ghost stage, ghost fires, ghost stageR, ghost firesR, ghost stageT, ghost stageC, ghost Wn, ghost Wchunk, ghost Wfailed, ghost csvRecN, ghost csvRecStart, ghost csvRecCells
+//@   assigns heap[tabular.propertyImpl.properties], new(tabular.valueProperty), tab(ct).ErrorContainer.errors_, elemscap(tab(ct).ErrorContainer.errors_), ghost cbErrN, ghost cbErrLog, ghost cbCallN, ghost cbCallSelf, ghost cbCallOwner, ghost stage, ghost fires, ghost stageR, ghost firesR, ghost stageT, ghost stageC, ghost Wn, ghost Wchunk, ghost Wfailed, ghost csvRecN, ghost csvRecStart, ghost csvRecCells
 //@   ensures [error-means-no-text] result1 != nil ==> result0 == "" @C09
 //@   ensures [table-still-wellformed] tbl(ct.Table)
 //@   call RenderTo before ghost Wfailed = false
